@@ -58,9 +58,9 @@ func (s *State) evalAssignment(right object.Object, node *ast.InfixExpression) o
 }
 
 func (s *State) evalIndexAssigment(which ast.Node, index, value object.Object) object.Object {
-	// Registers are live pointers: store the integers they hold now.
-	index = object.CopyRegister(index)
-	value = object.CopyRegister(value)
+	// Registers and references are live pointers: store the values they hold now.
+	index = object.Value(index)
+	value = object.Value(value)
 	if which.Value().Type() != token.IDENT {
 		return s.NewError("index assignment to non identifier: " + which.Value().DebugString())
 	}
@@ -311,6 +311,9 @@ func (s *State) evalInternal(node any) object.Object { //nolint:funlen,gocognit,
 		if oerr != nil {
 			return *oerr
 		}
+		for i, el := range elements {
+			elements[i] = object.Value(el) // an array holds values, never references to variables.
+		}
 		return object.NewArray(elements)
 	case *ast.MapLiteral:
 		return s.evalMapLiteral(node)
@@ -367,7 +370,7 @@ func (s *State) evalMapLiteral(node *ast.MapLiteral) object.Object {
 
 	for _, keyNode := range node.Order {
 		valueNode := node.Pairs[keyNode]
-		key := object.CopyRegister(s.Eval(keyNode))
+		key := object.Value(s.Eval(keyNode))
 		if key.Type() == object.ERROR {
 			return key
 		}
@@ -375,7 +378,7 @@ func (s *State) evalMapLiteral(node *ast.MapLiteral) object.Object {
 			log.Warnf("key %s is not hashable", key.Inspect())
 			return s.NewError("key " + key.Inspect() + " is not hashable")
 		}
-		value := object.CopyRegister(s.Eval(valueNode))
+		value := object.Value(s.Eval(valueNode))
 		if value.Type() == object.ERROR {
 			return value
 		}
@@ -522,7 +525,7 @@ func (s *State) evalBuiltin(node *ast.Builtin) object.Object {
 		return s.evalPrintLogError(node)
 	}
 	if minV > 0 {
-		val = object.CopyRegister(s.evalInternal(node.Parameters[0]))
+		val = object.Value(s.evalInternal(node.Parameters[0]))
 		rt = val.Type()
 		if rt == object.ERROR && t != token.LOG && t != token.CATCH { // log can log (and thus catch) errors.
 			return val
